@@ -1,4 +1,4 @@
 SPECIFICATION Spec
-CONSTANTS NSet = {30, 200, 5000}  Reps = {1}
+CONSTANTS ZPWeights = {"none", "quadratic", "array"}  ZPSizes = {200}  NSet = {30, 200, 5000}  Reps = {1}
 CHECK_DEADLOCK FALSE
 INVARIANT Emit
